@@ -31,7 +31,7 @@ def cases(tier, seed):
             out.append(dict(st, repr="float", vset=1, total=total1))
     # integer-typed and Fortran-ordered read-only inputs on the N <= 3 slice
     for st in lattice.structures(3, hermitian=True, ks=(1,), patterns=("dense", "offdiag")):
-        for rep in ("int", "fortran-ro"):
+        for rep in ("int", "fortran-ro", "csr-int"):
             out.append(dict(st, repr=rep, vset=0, total=total1))
     # energy placement where block order != energy order
     for st in lattice.structures(3 if tier == "quick" else 4, hermitian=True, ks=(1,), placements=(1,),
